@@ -510,7 +510,11 @@ func (m *Machine) exec(o *Op) (outcome string) {
 		case "OMerge":
 			result, hasResult = m.object(o.R).Merge(m.object(o.A)), true
 		case "OPluck":
-			result, hasResult = m.object(o.R).Pluck(o.Keys...), true
+			ks := append([]string(nil), o.Keys...)
+			result, hasResult = m.object(o.R).Pluck(ks...), true
+			if fmt.Sprint(ks) != fmt.Sprint(o.Keys) {
+				m.fail("Pluck modified the key slice passed by its caller: %q became %q", o.Keys, ks)
+			}
 		case "OGet":
 			result, hasResult = m.object(o.R).Get(o.K), true
 		case "OGetTyped":
@@ -817,6 +821,15 @@ func (p *Prog) key(ob at.Object) string {
 }
 
 func (p *Prog) newContainer() {
+	if p.r.chance(0.15) {
+		// NewListOf: one value repeated (the same scalar wrapper / the same container in every slot); count -1 panics
+		cnt := int64(p.r.Intn(5))
+		if p.r.chance(0.05) {
+			cnt = -1
+		}
+		p.do(&Op{Name: "NewListOf", Vals: []Operand{p.value(-1)}, I: cnt})
+		return
+	}
 	if p.r.chance(0.5) {
 		n := p.r.Intn(5)
 		var vs []Operand
